@@ -34,9 +34,11 @@ def enrich(g, it):
         if it.generics and g.chance(0.5) and not any(a.kind == "where_clause" and a.container() == c for a in it.attrs):
             it.attrs.append(Instr("where_clause", "where_clause", container=c, preds=f"T: W{g.mark()}"))
     members = it.fields if it.kind == "struct" else it.variants
+    # counterparts a tuple struct addresses by field name (`as {}`): any further mapping instruction would have to name the field, too
+    by_name = {t.f["ty"] for t in it.attrs if t.kind == "trait" and t.f.get("hint") == "{}"} if (it.kind == "struct" and it.shape == "tuple") else set()
     for m in members:
         for c in cps:
-            if not g.chance(0.25):
+            if not g.chance(0.25) or c in by_name:
                 continue
             k = g.mark()
             if it.kind == "struct":
@@ -70,10 +72,10 @@ def run(tier):
     g = xgen.G(common.rng_for("C06", tier))
     n = 1500 if tier == "quick" else 20000
     joints = []
-    profs = ["struct_basic", "struct_basic", "struct_children", "enum_basic", "enum_basic", "enum_prim", "struct_parents"]
+    profs = ["struct_basic", "struct_basic", "struct_children", "enum_basic", "enum_basic", "enum_prim", "struct_parents", "struct_unit", "struct_mixed_nests"]
     while len(joints) < n:
         p = g.pick(profs)
-        it = xgen.PROFILES[p](g) if p in ("struct_parents", "enum_prim") else xgen.PROFILES[p](g, n_cp=g.pick([2, 2, 3]))
+        it = xgen.PROFILES[p](g) if p in ("struct_parents", "enum_prim", "struct_unit", "struct_mixed_nests") else xgen.PROFILES[p](g, n_cp=g.pick([2, 2, 3]))
         it.meta["profile"] = p
         if len(it.meta["cps"]) < 2:
             continue
